@@ -455,7 +455,14 @@ fn gen_expr(rng: &mut Rng, c: &GenCtx, depth: usize) -> E {
             }
             E::WithinReference(cnd, cs)
         }
-        98 => E::WithinVisibility(sub(rng), gen_commits(rng, c.n)),
+        98 => {
+            // a visibility scope always has at least one head (views are never empty)
+            let mut vh = gen_commits(rng, c.n);
+            if vh.is_empty() {
+                vh.push(rng.usize(c.n));
+            }
+            E::WithinVisibility(sub(rng), vh)
+        }
         _ => E::HeadsRange(sub(rng), sub(rng), gen_pr(rng), Box::new(if rng.chance(1, 2) { E::All } else { gen_expr(rng, c, d) })),
     }
 }
